@@ -31,7 +31,7 @@ REQUIRED_THEOREMS = ['digital_exact', 'digital_exact_neg', 'format_canonical', '
                      'decimal_mark_foreign', 'zero_fraction_witness', 'constants_regenerated',
                      # RTV.Props.C03Frac: suffix multipliers, point, fractions, powers
                      'suffix_value_rounded', 'suffix_exact_literal', 'point_digits_exact', 'fraction_notation_value',
-                     'power_e_exact', 'power_caret_exact', 'x10_caret_witness', 'mixed_roundth_witness', 'numfrac_constants']
+                     'power_e_exact', 'power_caret_exact', 'power_x10_exact', 'x10_caret_witness', 'mixed_roundth_witness', 'numfrac_constants']
 RULE = ('unit: decimal ops on boundary coefficients (10^k, 10^k±1, ...5 ties) + seeded operands, p in {15, 28}; '
         '_get_digital_value / format on every literal shape (plain, grouped, decimal, grouped+decimal, ± sign) x '
         'magnitudes 0..10^15 (10^k, 10^k±1, 15- and 16-digit, 10^-6, 10^-7) x 10 configurations + seeded junk '
